@@ -4,7 +4,7 @@ id=$1; patch=$2; shift 2
 cd /verif
 if [ -n "$(git -C /repo status --porcelain --untracked-files=no)" ]; then echo "/repo not clean"; exit 3; fi
 git -C /repo apply "$patch" || { echo "patch does not apply"; exit 3; }
-./check "$id" "$@" > /tmp/try_mutant.out 2>&1; rc=$?
+VERIF_NO_EVIDENCE=1 ./check "$id" "$@" > /tmp/try_mutant.out 2>&1; rc=$?
 git -C /repo checkout -- . 
 grep -E "^violation|^VIOLATION|^KNOWN|^$id |HARNESS" /tmp/try_mutant.out | cut -c1-260 | head -8
 echo "exit=$rc"
